@@ -21,7 +21,9 @@ from tv.gen import frames as F
 from tv import refmodel as R
 
 DECLS = {
-    'int64': ['integer', 'int', 'bigint', 'INTEGER'],
+    # (numeric / number: tdda's type for them is real, SQLite keeps the
+    # integers stored in them as integers)
+    'int64': ['integer', 'int', 'bigint', 'INTEGER', 'numeric', 'number'],
     'float64': ['real', 'float', 'double', 'REAL'],
     'boolean': ['boolean', 'bool'],
     'ostr': ['text', 'varchar', 'TEXT', 'text PRIMARY KEY'],
@@ -242,6 +244,10 @@ def discovered(c, vals, n):
     d = R.discovered(base_kind, vals, n)
     d['type'] = {'int64': 'int', 'float64': 'real', 'boolean': 'bool',
                  'ostr': 'string', 'dt64s': 'date'}[k]
+    if c.get('decl') in ('numeric', 'number'):
+        d['type'] = 'real'
+        if 'no_duplicates' in d:
+            d['no_duplicates'] = 'either'
     if k == 'boolean':
         # booleans are held as 0/1: distinct-count based constraints are
         # those of an integer column only if the discoverer counts them
